@@ -64,22 +64,50 @@ def run(report, index, tier):
                  'parse() returns something that does not come from the '
                  'Parser constructed in the same call',
                  where='parsers/es5.py:parse')
+    def reachable_calls(module, clsname, start):
+        """Call nodes of `start` and of the methods of the class it calls
+        through self (transitively)"""
+        methods = module.class_methods(clsname)
+        todo, seen, calls = [start], set(), []
+        while todo:
+            f = todo.pop()
+            if f.name in seen:
+                continue
+            seen.add(f.name)
+            for n in own_nodes(f):
+                if isinstance(n, ast.Call):
+                    calls.append(n)
+                    if isinstance(n.func, ast.Attribute) and isinstance(
+                            n.func.value, ast.Name) and \
+                            n.func.value.id == 'self' and \
+                            n.func.attr in methods:
+                        todo.append(methods[n.func.attr])
+        return calls
+
+    def callee(n):
+        return ast.unparse(n.func).split('.')[-1]
+
+    def passes_self(n):
+        return any(isinstance(a, ast.Name) and a.id == 'self'
+                   for a in list(n.args) + [k.value for k in n.keywords])
     init = need_function(pm, '__init__', 'Parser')
-    t = ast.unparse(init)
-    r1.check('self.lexer = Lexer(' in t, 'Parser.__init__ builds Lexer',
-             'Parser.__init__', 'the Lexer is not constructed per Parser',
+    pcalls = reachable_calls(pm, 'Parser', init)
+    r1.check(any(callee(n) == 'Lexer' for n in pcalls),
+             'Parser.__init__ builds Lexer', 'Parser.__init__',
+             'no Lexer is constructed while a Parser is initialised',
              where='parsers/es5.py:Parser.__init__')
-    r1.check('yacc.yacc(' in t and 'module=self' in t,
+    r1.check(any(callee(n) == 'yacc' and passes_self(n) for n in pcalls),
              'Parser.__init__ builds LRParser', 'Parser.__init__',
-             'the ply parser object is not built per Parser with '
-             'module=self', where='parsers/es5.py:Parser.__init__')
+             'the ply parser object is not built per Parser from this '
+             'instance (yacc.yacc(module=self, ...))',
+             where='parsers/es5.py:Parser.__init__')
     linit = need_function(lm, '__init__', 'Lexer')
-    build = need_function(lm, 'build', 'Lexer')
-    r1.check('self.build(' in ast.unparse(linit) and
-             'lex.lex(object=self' in ast.unparse(build),
+    lcalls = reachable_calls(lm, 'Lexer', linit)
+    r1.check(any(callee(n) == 'lex' and passes_self(n) for n in lcalls),
              'Lexer builds ply lexer per instance', 'Lexer.__init__/build',
-             'the ply lexer is not built per Lexer instance with '
-             'object=self', where='lexers/es5.py:Lexer.build')
+             'the ply lexer is not built per Lexer instance from this '
+             'instance (lex.lex(object=self, ...))',
+             where='lexers/es5.py:Lexer.build')
     for m in mods:
         for st in m.tree.body:
             tops = [st]
